@@ -88,8 +88,9 @@ def make_case(ctx, cid, en, batch=None, mode=None):
     win = enumgen.window(en["kind"], [v for _, v in decl]) if decl else [0, 1]
     variants = stale_variants(ctx, en, decl) if cl in ("wf", "neg", "big") else []
     rerun = bool(decl) and ctx.rng.random() < 0.3          # shoot runs a second time over the package that holds its own output
+    hops = enumgen.history(ctx.rng, en, decl) if decl else []
     extra = [["win"] + [str(v) for v in win],
-             ["stale"] + [[lbl] + [[Q(n), str(v)] for n, v in cur] for lbl, _, cur in variants]]
+             ["stale"] + [[lbl] + [[Q(n), str(v)] for n, v in cur] for lbl, _, cur in variants], enumgen.history_sexp(hops)]
     if rerun:
         extra.append(enumgen.generated_sexp(en, decl))
     variants = [(lbl, dict(files, **lay["extra"]), cur) for lbl, files, cur in variants]
@@ -104,7 +105,7 @@ def make_case(ctx, cid, en, batch=None, mode=None):
             extra.append(enumgen.generated_sexp(en, decl))
     case = {"id": cid, "en": en, "decl": decl, "files": files0, "mode": lay["mode"], "spread": lay["spread"], "edit": edit, "verbose": lay["verbose"],
             "runs": runs, "rerun": rerun,
-            "oracle": {".": enumgen.oracle_c04(en, decl, win, enumgen.str_probes(ctx.rng, T, decl))} if decl else {},
+            "oracle": {".": enumgen.oracle_c04(en, decl, win, enumgen.str_probes(ctx.rng, T, decl), hops)} if decl else {}, "hist": hops,
             "sexp": enumgen.case_sexp(cid, "c04", en, extra), "cmd": "shoot enum " + " ".join(lay["sel"]),
             "variants": variants, "shape": en.get("shape") if en.get("shape") in VARIANTS else cl}
 
